@@ -1154,6 +1154,53 @@ func includeChains() {
 	}
 }
 
+// includeTrees: the depth limit is about NESTING, not about how many files one file includes: a file at depth d
+// (0 = the main file) with w sibling $INCLUDE directives, each of a leaf file, for every d in 0..6 and several
+// w in 1..12, must yield every record in file order.
+func includeTrees() {
+	for d := 0; d <= 6; d++ {
+		for _, w := range []int{1, 2, 6, 7, 8, 9, 12} {
+			for _, hasfs := range []bool{true, false} {
+				files := map[string]z.Recipe{}
+				var want []string
+				// the chain down to depth d
+				for i := 1; i <= d; i++ {
+					want = append(want, fmt.Sprintf("c%d.example.org.", i))
+				}
+				for j := 1; j <= w; j++ {
+					want = append(want, fmt.Sprintf("leaf%d.example.org.", j))
+					files[fmt.Sprintf("z/leaf.%d", j)] = z.Lit(fmt.Sprintf("leaf%d 60 IN A 10.1.0.%d\n", j, j))
+				}
+				want = append(want, "after.example.org.")
+				var sib strings.Builder
+				for j := 1; j <= w; j++ {
+					fmt.Fprintf(&sib, "$INCLUDE leaf.%d\n", j)
+				}
+				sib.WriteString("after 60 IN A 10.2.0.1\n")
+				text := sib.String()
+				for i := d; i >= 1; i-- {
+					files[fmt.Sprintf("z/chain.%d", i)] = z.Lit(fmt.Sprintf("c%d 60 IN A 10.0.0.%d\n", i, i) + text)
+					text = fmt.Sprintf("$INCLUDE chain.%d\n", i)
+				}
+				c := cfgFor("example.org.", ptr(uint32(300)), text)
+				c.File = "z/main.zone"
+				c.Inc, c.HasFS = true, hasfs
+				c.Files = files
+				o := z.Run(c, 1)
+				stat["include_tree_checked"]++
+				var owners []string
+				for _, rc := range o.Recs {
+					owners = append(owners, rc.Name)
+				}
+				if o.Err != nil || strings.Join(owners, " ") != strings.Join(want, " ") {
+					Viol("C06/include/siblings-within-limit", fmt.Sprintf("a file at nesting depth %d with %d sibling $INCLUDE directives does not yield its records (err=%v)", d, w, o.Err),
+						map[string]any{"depth": d, "siblings": w, "fs": hasfs, "got": strings.Join(owners, " ")})
+				}
+			}
+		}
+	}
+}
+
 // ---------- probes for the three lexer deviations the streams avoid ----------
 
 func probes() {
@@ -1250,6 +1297,7 @@ func runC06(r *Rng, tier string, n int) {
 	includeStream(r, 120*mult)
 	rdataNameCompletion(r, mult)
 	includeChains()
+	includeTrees()
 	Stat(stat)
 }
 
